@@ -16,7 +16,7 @@ RULE = ('(i) fragment sets: 1-4 fragments per set, atomistic (G-mol + G-render) 
         'descriptors in any order, orders 0-3, all four kinds, labelled or not, leading or not, around ring digits, 12 % with a group whose bonds are written : between upper-case atoms, 30 % spelled along an arbitrary spanning tree: '
         'read_fragments(write_cgsmiles_fragments(F)) must give fragments isomorphic to F on element / node name, charge, '
         'aromatic flag, ORDERED descriptor list per atom and bond order. (ii) complete strings from the C01 / C10 / C06 '
-        'generators (cut, shared, multi-level, coarse last level): write_cgsmiles(resolver.molecule, resolver.fragment_dicts) '
+        'generators (cut, shared, multi-level, coarse last level, two-level strings with a coarse fragment layer only): write_cgsmiles(resolver.molecule, resolver.fragment_dicts) '
         '-> from_string -> resolve_all must be the same molecule as the original string gives. distinct = (kind, feature set, '
         'size); non-trivial = at least one descriptor.')
 ASSUMPTIONS = ['weight, chirality and E/Z marks are not in the property\'s list and are not compared',
@@ -123,6 +123,12 @@ def cases(seed, tier, shard, nshards):
             if c:
                 c = dict(kind='complete', string=c['base_string'] + '.' + c['frag_string'], coarse_last=False,
                          features=sorted(set(c['features']) | {'complete_shared'}), nheavy=c['nheavy'])
+        elif r < 0.91:
+            # two-level strings whose only fragment layer is coarse (a bead graph cut into named bead fragments)
+            c = MC.random_coarse_cut_case(rng, rng.randint(2, 10))
+            if c:
+                c = dict(kind='complete', string=c['base_string'] + '.' + c['frag_string'], coarse_last=True,
+                         features=sorted(set(c['features']) | {'complete_two_level_coarse'}), nheavy=c.get('nheavy'))
         else:
             cl = rng.random() < 0.4
             c = MC.random_multilevel_case(rng, rng.choice([6, 10, 16]), coarse_last=cl)
